@@ -2,7 +2,9 @@
    Proved so far; the composition over whole pictures is tied by execution against the reference
    reconstruction (see DESIGN.md). *)
 From H263V Require Import base.Prelude spec.SpecRecon model.Types model.Reader model.Header model.Syntax model.Recon model.Decoder proofs.MvSpec.
-From H263V Require Import model.Tables spec.SpecTables proofs.VlcTables proofs.PlaneShape proofs.GatherSpec spec.SpecHeader proofs.BlockRoundTrip proofs.MacroblockRoundTrip proofs.PictureRoundTrip model.F32 proofs.IdctPlacement proofs.IntraPicture proofs.GatherPicture proofs.PredictedPicture.
+From H263V Require Import model.Tables spec.SpecTables proofs.VlcTables proofs.PlaneShape proofs.GatherSpec spec.SpecHeader proofs.BlockRoundTrip proofs.MacroblockRoundTrip proofs.PictureRoundTrip model.F32 proofs.IdctPlacement proofs.IntraPicture proofs.GatherPicture proofs.PredictedPicture proofs.IdctAccuracy proofs.PictureAccuracy.
+From Coq Require Import Reals.
+Local Open Scope Z_scope.
 
 (* each vector component = predictor + differential reduced modulo 64 half samples into -32..31 (= -16..15.5) *)
 Theorem C03_vector_wrap : forall cur running p d is_x,
@@ -119,6 +121,48 @@ Theorem C03_predicted_picture : forall o last rp running0 r0 hdr fmt w h fms res
                               (chroma_after w h mpl (d_cr rp) items 0 (new_plane ((w + 1) / 2) ((h + 1) / 2)) x y)).
 Proof. exact reconstruct_predicted. Qed.
 
+
+(* from the bits of a predicted picture to the accuracy of every sample: each sample is within 0.632 of `target`: the
+   prediction itself where nothing was coded, otherwise clip_0..255 (prediction + the exact residual, clipped to -256..255),
+   the residual being the exact inverse DCT of the placed, dequantised coefficient matrix of the block at that position *)
+Theorem C03_predicted_picture_accurate : forall o last rp running0 r0 hdr fmt w h fms rest pos st',
+  let v1 := sorenson o && (match version hdr with Some 1 => true | _ => false end) in
+  let running := (if has_plusptype hdr && has_opptype hdr then options hdr
+                  else if has_plusptype hdr then Z.lor (Z.ldiff (options hdr) opptype_options) (Z.land running0 opptype_options)
+                  else Z.lor (Z.ldiff (Z.ldiff (options hdr) opptype_options) mpptype_options) (Z.land running0 (Z.lor opptype_options mpptype_options))) in
+  let mpl := (w + 15) / 16 in let mbh := (h + 15) / 16 in let levw := mpl * 16 in let levh := mbh * 16 in
+  let np := mkDecoded hdr fmt (new_plane w h) (new_plane ((w + 1) / 2) ((h + 1) / 2)) (new_plane ((w + 1) / 2) ((h + 1) / 2)) ((w + 1) / 2) in
+  let st0 := mkLoop (mkReader (enc_fulls false v1 fms ++ rest) pos) (quantizer hdr) [] []
+                    (repeatZ DctZero (levw * levh / 64)) (repeatZ DctZero (levw * levh / 4 / 64)) (repeatZ DctZero (levw * levh / 4 / 64)) in
+  let items := combine (l_types st') (l_pvs st') in
+  decode_picture o (match last with Some p => Some (d_header p) | None => None end) r0 = Ok (Some hdr, mkReader (enc_fulls false v1 fms ++ rest) pos) ->
+  (picture_type hdr = PFrame \/ picture_type hdr = DisposablePFrame) -> format hdr = Some fmt -> into_width_and_height fmt = Some (w, h) -> 1 <= w -> 1 <= h ->
+  simple_picture hdr running ->
+  into_width_and_height (d_format rp) = Some (w, h) -> plane_ok w h (d_luma rp) ->
+  plane_ok ((w + 1) / 2) ((h + 1) / 2) (d_cb rp) -> plane_ok ((w + 1) / 2) ((h + 1) / 2) (d_cr rp) -> d_chroma_w rp = (w + 1) / 2 ->
+  Forall (wf_full false v1) fms -> loop_ok fms 0 (mpl * mbh) ->
+  pure_loop np running mpl levw fms st0 = Ok st' ->
+  exists pic pos',
+    reconstruct o last (Some rp) running0 r0 = Ok (pic, mkReader rest pos') /\
+    (forall x y, 0 <= x < w -> 0 <= y < h ->
+       let d := block_of (l_luma st') (mpl * 2) x y in
+       exists coef, coef_source d coef /\
+         (Rabs (IZR (at_ (d_luma pic) x y)
+                - target d (luma_after w h mpl rp items 0 (new_plane w h) x y)
+                    (ideal4 (fun r f => coef (Z.of_nat f) (Z.of_nat r)) (Z.to_nat (x mod 8)) (Z.to_nat (y mod 8)) / 4)) <= 0.632)%R) /\
+    (forall x y, 0 <= x < (w + 1) / 2 -> 0 <= y < (h + 1) / 2 ->
+       (let d := block_of (l_cb st') mpl x y in
+        exists coef, coef_source d coef /\
+         (Rabs (IZR (at_ (d_cb pic) x y)
+                - target d (chroma_after w h mpl (d_cb rp) items 0 (new_plane ((w + 1) / 2) ((h + 1) / 2)) x y)
+                    (ideal4 (fun r f => coef (Z.of_nat f) (Z.of_nat r)) (Z.to_nat (x mod 8)) (Z.to_nat (y mod 8)) / 4)) <= 0.632)%R) /\
+       (let d := block_of (l_cr st') mpl x y in
+        exists coef, coef_source d coef /\
+         (Rabs (IZR (at_ (d_cr pic) x y)
+                - target d (chroma_after w h mpl (d_cr rp) items 0 (new_plane ((w + 1) / 2) ((h + 1) / 2)) x y)
+                    (ideal4 (fun r f => coef (Z.of_nat f) (Z.of_nat r)) (Z.to_nat (x mod 8)) (Z.to_nat (y mod 8)) / 4)) <= 0.632)%R)).
+Proof. exact reconstruct_predicted_accurate. Qed.
+
 Print Assumptions C03_vector_wrap.
 Print Assumptions C03_predicted_picture.
 Print Assumptions C03_picture_body_roundtrip.
@@ -128,3 +172,4 @@ Print Assumptions C03_code_tables.
 Print Assumptions C03_chroma_vector_table.
 Print Assumptions C03_median.
 Print Assumptions C03_no_reference_is_an_error.
+Print Assumptions C03_predicted_picture_accurate.
